@@ -398,7 +398,15 @@ func (e *Exec) flat(o sod.Object) Flat {
 }
 
 // of: a fresh object of the handle's current Go type
-func (e *Exec) of() sod.Object { return e.typ.mk() }
+// of: the object handed to calls that only want to know the collection (Count, All, Search, Repair,
+// FlushAll ...): half of the time it HOLDS DATA (no uuid): a type witness may be any object of the type
+func (e *Exec) of() sod.Object {
+	if e.rng.Intn(2) == 0 && e.typ.name == "shape.Rec" {
+		r := flatToRec(genRec(e.rng, e.cfg))
+		return r
+	}
+	return e.typ.mk()
+}
 
 func (e *Exec) ofU(u int) sod.Object {
 	o := e.typ.mk()
